@@ -327,3 +327,31 @@ package ugo
 //@ loop 0 invariant verifrt.Disjoint(operands, numOperands)
 //@ modifies operands[*]
 //@ property C05 C11 C18
+
+// ---------------------------------------------------------------------------
+// C13: a name disabled in the root symbol table never resolves to a builtin.
+
+//@ func (*SymbolTable).root
+//@ params st
+//@ results r
+//@ requires st != nil && rootOfDef()
+//@ ensures r == rootOf(st) && r != nil && r.parent == nil
+//@ property C13
+
+//@ func (*SymbolTable).isBuiltinDisabled
+//@ params st name
+//@ results r
+//@ requires st != nil && rootOfDef()
+//@ ensures r == specDisabled(rootOf(st), name)
+//@ property C13
+
+//@ func (*SymbolTable).Resolve
+//@ params st name
+//@ results symbol ok
+//@ requires st != nil && st.store != nil && rootOfDef() && symtabInv()
+//@ requires forall t *SymbolTable :: t != nil ==> t.store != nil
+//@ ensures[nodisabled] ok && symbol != nil && symbol.Scope == ScopeBuiltin ==> !specDisabled(rootOf(st), name)
+//@ ensures[nonnil]     ok ==> symbol != nil
+//@ ensures[inv]        symtabInv()
+//@ modifies *
+//@ property C13
